@@ -50,6 +50,11 @@ CLAIMS = {
   text="Structural necessary conditions of package privacy: in Stack.nestedPathGetSet every path from the symbol lookup to a point that yields a value, assigns a member or descends into a hash passes a checked errIfPrivate on that hop's name, or takes the is-a-package edge; the hash walker is handed the package and, when it has one, checks every member it yields or assigns the same way; errIfPrivate is an error exactly when unicode.IsUpper of the first rune of the dot-stripped name is false; Stack.LookupSymbol is called only by the walker, closures' captured scopes and FindObject. Does not decide behaviour per program, nor printing of package values.",
   note="Trusts go/ssa; fails closed when the walkers lose the shapes read today.",
   ref="DESIGN.md §3 C18"),
+ "C16": dict(
+  technique="sibling-agreement checks over go/ssa on the three argument-marshalling sites, shape checks of the laziness predicate, memo and environment stores in Force",
+  text="Structural necessary conditions of lazy parameters: PrepareCallExprArgs, GenerateCallArgsForFunction and Apply each test IsLazyCallArg on the argument's position, build the (source / source-instruction / value) wrapper exactly on its true branch, continue the loop there, and evaluate or push every other position exactly once; Go builtins are excluded (!user guards); the laziness flags are written only in SetFormalSymbols from isLazyFormalSymbol, which tests the # sigil; IsLazyCallArg is false in a variadic tail; Force returns the memo under the forced flag and otherwise stores value and flag before every successful return, installs a clone of the captured scope stack after capturing the control state and the captured function as parent; NewSourceLazyArg captures both; SubstituteFunction cannot reach Force. Does not decide effect counts/order for concrete programs.",
+  note="Trusts go/ssa (including its lowering of range loops); fails closed on other shapes.",
+  ref="DESIGN.md §3 C16"),
 }
 NA_DEFAULT="rules not built yet (build in progress; see DESIGN.md §7)"
 NA = {}
